@@ -101,15 +101,16 @@ def plan(tier):
         out.append(('kotlin', (2, 3), 'seq', False, 7, 'single'))
         out.append(('java', (2, 2), 'seq', True, 7, 'single'))
     else:
-        for lang in ('java', 'kotlin', 'groovy', 'scala'):
-            for mode in ('seq', 'pool'):
-                out.append((lang, (2, 4), mode, False, 9, 'all'))
-                out.append((lang, (3, 3), mode, False, 9, 'all'))
-                out.append((lang, (1, 3), mode, False, 9, 'all'))
-                out.append((lang, (2, 4), mode, True, 7, 'single'))
         for mode in ('seq', 'pool'):
-            out.append(('java', (2, 5), mode, False, 7, 'single'))
-            out.append(('java', (3, 6), mode, False, 5, 'single'))
+            out.append(('java', (2, 4), mode, False, 9, 'all'))
+            out.append(('java', (3, 3), mode, False, 9, 'all'))
+            out.append(('java', (1, 3), mode, False, 9, 'all'))
+            out.append(('java', (2, 5), mode, False, 5, 'single'))
+            out.append(('java', (2, 4), mode, True, 7, 'single'))
+        for lang in ('kotlin', 'groovy', 'scala'):
+            for mode in ('seq', 'pool'):
+                out.append((lang, (2, 3), mode, False, 9, 'all'))
+                out.append((lang, (3, 3), mode, False, 7, 'single'))
     return out
 
 
